@@ -278,7 +278,7 @@ func init() {
 		ID: "C11", Level: "exploration",
 		Rule: "U1 enumerates node PAIRS: for every document of a universe whose element/attribute names and values contain '-' and digits and repeat among siblings and cousins, and every ordered pair of nodes (x,y), the union of their absolute addresses must yield exactly {x,y} (1 node iff x=y); U2-U4 enumerate A|B over all pairs of 1-step paths, the sequence form p/(s1,s2[,s3]), A|B|C and (A|B)[P] on T(<=3) from every context; U5/U6: unions re-evaluated per candidate and merge-query operands; U7: unions over a parent with 255..300 children (sibling positions beyond one byte) and over 260 one-child parents, from the root / parent / first child; compared as a multiset (every node exactly once, order free) with the reference union; non-trivial = non-empty reference union; distinct = distinct expressions",
 		Assumptions:    []string{"hand-written reference evaluator", "lawful NodeNavigator", "bounded trees"},
-		Budget:         budget(90*time.Second, 25*time.Minute),
+		Budget:         budget(200*time.Second, 25*time.Minute),
 		MinRefOutcomes: 2,
 		Spaces:         c11Spaces,
 	})
